@@ -555,6 +555,64 @@ pub fn run(r: &mut Report, ctx: &Ctx) {
                 },
             );
         }
+        if ctx.want("qratio-boundaries") {
+            // q3 values: every small value, around every power of two, and strided through the range
+            let mut q3s: Vec<u32> = (1..=300).collect();
+            for k in 8..32u32 {
+                for j in 0..4u32 {
+                    q3s.push((1u32 << k).wrapping_add(j));
+                    q3s.push((1u32 << k) - 1 - j);
+                }
+            }
+            let stride_n = if quick { 1700 } else { 17000 };
+            for i in 0..stride_n as u64 {
+                q3s.push((3 + i * (16_777_216 * 2 / stride_n as u64 + 1)) as u32); // up to 2^25
+                q3s.push(((1u64 << 25) + i * (((1u64 << 32) - (1u64 << 25)) / stride_n as u64)) as u32);
+            }
+            q3s.sort();
+            q3s.dedup();
+            r.section(
+                "qratio-boundaries",
+                "Q-ratio rounding boundaries: for each q3 of a set (all 1..=300, around every power of two, strided through 1..2^32) and each m in 0..=100, q = floor(m*q3/100) + {-1,0,+1} is installed as q1 = q2 with q3 as exact quartiles (injected bucket array); these are the points where the truncated ratio changes value, so integer and f32 arithmetic diverge here first (f32 inexactness of q*100 above 2^24 and of the quotient above about 3*10^5); both Q-ratio modes, all permissive-flag settings; non-trivial = cases where the two reference formulas differ",
+                &format!("{} q3 values x 101 ratios x 3 offsets x 8 options, Normal and Short alternating", q3s.len()),
+                true,
+                |s| {
+                    let q3s = &q3s;
+                    let dist_opts = &dist_opts;
+                    s.acc = par_for(q3s.len() as u64 * 101, 64, |idx, acc| {
+                        let q3 = q3s[(idx / 101) as usize];
+                        let m = idx % 101;
+                        let base = (m * q3 as u64 / 100) as i64;
+                        for d in -1i64..=1 {
+                            let q = (base + d).clamp(0, q3 as i64) as u32;
+                            let (v, nb) = if (idx + d as u64) % 2 == 0 { (1usize, 128usize) } else { (0usize, 48usize) };
+                            let qn = nb / 4;
+                            let mut buckets = [0x0101_0101u32; 256];
+                            for i in 0..nb {
+                                let cls = ((i * 37 + 11) % nb) / qn;
+                                buckets[i] = [q, q, q3, q3][cls];
+                            }
+                            let p = GeneratorParts { buckets, len: 70_000, checksum: [9, 0, 0], tail: [2, 2, 2, 2], tail_len: 4 };
+                            acc.evals += 1;
+                            acc.transitions += 8;
+                            if ref_qratio_int(q, q3) != ref_qratio_f32(q, q3) {
+                                acc.nontrivial += 1;
+                                acc.sample(idx * 3 + (d + 1) as u64, || json!({"q": q, "q3": q3, "int": ref_qratio_int(q, q3), "f32": ref_qratio_f32(q, q3)}));
+                            }
+                            let res = with_variant!(v, judge_injected(&p, dist_opts));
+                            match res {
+                                Ok(fp) => acc.outcomes.insert(fp),
+                                Err(e) => {
+                                    acc.fail(idx * 3 + (d + 1) as u64, "qratio-boundaries", format!("{}: quartiles ({q},{q},{q3}): {e}", VARIANT_NAMES[v]),
+                                             json!({"kind": "inject", "variant": VARIANT_NAMES[v], "parts": hooked::parts_json(&p)}));
+                                    return;
+                                }
+                            }
+                        }
+                    });
+                },
+            );
+        }
         if ctx.want("large-counts") && !quick {
             let total: u64 = 256 << 20;
             r.section(
